@@ -175,6 +175,7 @@ void wire_stmts(Scope &sc, const JV &stmts) {
         if (auto *in = st.get("ins")) for (auto &r : in->a) ins.push_back(resolve_ref(sc, r));
         WiringPortRef out;
         if (op == "src") out = wire_src(sc, st);
+        else if (op == "push_src") out = wire_push_src(sc, st);
         else if (op == "node") out = wire_node(sc, st, std::move(ins));
         else if (op == "op") {
             std::vector<WiringArg> args;
